@@ -810,6 +810,20 @@ def g_folder_ids(ctx, F, body, site):
     chain = [(bi, t) for bi, t in fc.calls() if is_callee(t, "std::iter::Iterator::chain")]
     nv = [(bi, t) for bi, t in fc.calls() if t["callee"].get("name") == "visit_variable_name"]
     ok = len(once) == 1 and len(chain) == 1 and len(nv) == 1 and flows_into(fc, nv[0][0], once[0][1]["args"][0]) and flows_into(fc, once[0][0], chain[0][1]["args"][0])
+    if not ok and len(nv) == 1 and not once:
+        # form B: the result of visiting the callee name goes through `?` before any combine can run
+        combs = [bi for b in [fc] for bi, t in b.calls() if (callee_def(t) or "").endswith("Combine::combine")]
+        brs = [bi for bi, t in fc.calls() if callee_def(t) == "std::ops::Try::branch" and any(d == ("call", nv[0][0]) for d, _ in origins(fc, t["args"][0]))]
+        okB = False
+        for bb in brs:
+            for sb in range(len(fc.blocks)):
+                sw = tables.arms_complete(fc, sb)
+                if sw and "Continue" in sw[2] and "Break" in sw[2] and any(d == ("call", bb) for d, _ in origins(fc, {"copy": {"l": sw[0]["l"], "p": []}})):
+                    if combs and all(c_ == sw[2]["Continue"] or _dominated_by_edge(fc, c_, sb, sw[2]["Continue"]) for c_ in combs):
+                        okB = True
+        # no visiting closure may combine on its own before that
+        inner = [1 for b in F.closures_of(fc) for bi, t in b.calls() if (callee_def(t) or "").endswith("Combine::combine")]
+        ok = okB and not inner
     return ok, "" if ok else "the callee name is not the first element folded by the default visit_function_call"
 
 
